@@ -7,14 +7,14 @@ Open Scope Z_scope.
 
 Lemma row_threaded_fold c row : forall P, WFc P -> Forall (run_ok' c) row ->
   fold_left (fun P (r : crun) => let '(a, cs, text) := r in
-               paint_text P cs (attr_vis c a) (if cs =? 2 then text else map trans_chr text)) row P
+               paint_text P cs (attr_vis c a) (if cs =? 2 then text else trans_text (g_utf8 c) text)) row P
   = P ++ row_cells c row.
 Proof.
   induction row as [|[[a cs] text] row IH]; intros P HP Hok.
   - cbn. now rewrite app_nil_r.
   - apply Forall_cons_iff in Hok as [(Ht & Hb & Hcs) Hrest]. cbn [fold_left].
-    assert (Et : (if cs =? 2 then text else map trans_chr text) = text).
-    { destruct (cs =? 2); [reflexivity|]. apply (trans_id _ _ Ht). }
+    assert (Et : (if cs =? 2 then text else trans_text (g_utf8 c) text) = text).
+    { destruct (cs =? 2); [reflexivity|]. apply (trans_text_id _ _ Ht). }
     rewrite Et. pose proof (Forall_chr_ok_w12 _ _ Ht) as Hw.
     rewrite paint_text_base by assumption.
     rewrite IH; [|apply WFc_app; [exact HP|apply WFc_text_cells; exact Hw]|exact Hrest].
@@ -25,31 +25,6 @@ Qed.
 Lemma row_cells_threaded_eq_lemma c cols row : row_ok c cols row -> row_cells_threaded c row = row_cells c row.
 Proof.
   intros H. unfold row_cells_threaded. rewrite row_threaded_fold; [reflexivity|constructor|eapply row_ok_weak; eauto].
-Qed.
-
-(* witness: bottom row "Y", U+0301 under another attribute, " " on a 2x1 screen without BCE: _last_row takes the
-   run that holds only the combining character as Y, draws "Y " and inserts the combining character at
-   column 0, where there is nothing to join: the mark is lost *)
-Definition any_cfg : cfg := mkCfg true false false false [(0, default_spec); (0, default_spec)].
-Definition any_row : crow := [(0, 0, [(89, 1)]); (1, 0, [(769, 0)]); (0, 0, [(32, 1)])].
-
-Lemma any_text_refuted_lemma : ~ draw_paints_any_text_full.
-Proof.
-  intros H.
-  assert (Hc : cfg_ok any_cfg).
-  { unfold cfg_ok, any_cfg. cbn. repeat constructor; cbn; intros; discriminate. }
-  assert (HS : Sync any_cfg (init_scr false) (new_term 2 1)).
-  { apply sync_start. unfold term_start_ok. splits; auto; try discriminate. apply term_ok_new; lia. }
-  assert (Hcan : canvas_any any_cfg 2 1 [any_row]).
-  { unfold canvas_any, any_row, chr_any. cbn.
-    repeat first [apply Forall_nil | apply Forall_cons | split | discriminate | lia | exact I | (left; reflexivity)
-                 | (right; split; [reflexivity|left; reflexivity])]. }
-  destruct (H any_cfg (init_scr false) (new_term 2 1) 2 1 [any_row] None Hc HS eq_refl eq_refl Hcan I)
-    as (toks & s' & E & (_ & Hg) & _).
-  vm_compute in E. inversion E; subst toks s'. clear E.
-  specialize (Hg 0 any_row eq_refl). vm_compute in Hg.
-  inversion Hg as [|e g l1 l2 Hv _]; subst. vm_compute in Hv.
-  destruct Hv as (_ & _ & Hcomb & _). discriminate.
 Qed.
 
 Lemma visual_colours_lemma bib bbb s :
